@@ -187,6 +187,49 @@ def gen_mod_case(rng):
         tgt = [b for b in bm['to']['nodes'] if b['key'] == tgt_key][0]
         if tgt['name'] is None:
             continue
+        if rng.random() < 0.3:
+            # several modifications on one residue (each one extra atom on the same anchor) and modification mappings that
+            # account for several of them at once: which mappings apply is an exact cover of the names, which may need backtracking
+            nm = rng.choice([2, 3, 3])
+            mids = [next(next_id) for _ in range(nm)]
+            for j, mid in enumerate(mids):
+                xk = next(free)
+                atoms.append({'key': xk, 'resid': resid, 'name': 9 + j, 'resname': kind, 'H': False, 'chain': chain})
+                bonds.append([anchor['key'], xk])
+                ptm.append(xk)
+                labels.setdefault(xk, []).append(mid)
+            for a in ats:
+                labels.setdefault(a['key'], []).extend(mids)
+            if nm == 3 and rng.random() < 0.5:
+                perm = rng.sample(range(3), 3)
+                subsets = [(perm[0], perm[1]), (perm[1], perm[2]), (perm[0],)]
+                if rng.random() < 0.3:
+                    subsets.append((perm[2],))
+                if rng.random() < 0.2:
+                    subsets.reverse()
+            else:
+                allsub = [tuple(j for j in range(nm) if (b >> j) & 1) for b in range(1, 2 ** nm)]
+                subsets = rng.sample(allsub, rng.randint(1, min(4, len(allsub))))
+            for S in subsets:
+                style = rng.choice(['new', 'onto', 'mixed'])
+                to_nodes = [{'key': 0, 'name': tgt['name'], 'new': False, 'rename': None}]
+                mapping = [[0, [[0, 4]]]]
+                frm = [{'key': 0, 'name': anchor['name'], 'resname': rng.choice([None, kind]), 'ptm': False, 'mods': [mids[j] for j in S]}]
+                fedges, tedges, tinters = [], [], []
+                for i, j in enumerate(S, start=1):
+                    frm.append({'key': i, 'name': 9 + j, 'resname': None, 'ptm': True, 'mods': [mids[j]]})
+                    fedges.append([0, i])
+                    if style == 'new' or (style == 'mixed' and rng.random() < 0.5):
+                        to_nodes.append({'key': i, 'name': 80 + mids[j], 'new': True, 'rename': None})
+                        mapping.append([i, [[i, 4]]])
+                        tedges.append([0, i])
+                        if rng.random() < 0.5:
+                            tinters.append([1, [0, i], 90 + mids[j]])
+                    else:
+                        mapping.append([i, [[0, rng.choice([4, 0, 2])]]])
+                modmaps.append({'names': [mids[j] for j in S], 'from': frm, 'fedges': fedges, 'to': to_nodes, 'tedges': tedges,
+                                'tinters': tinters, 'map': mapping})
+            continue
         mid = next(next_id)
         xk = next(free)
         atoms.append({'key': xk, 'resid': resid, 'name': 9, 'resname': kind, 'H': False, 'chain': chain})
@@ -744,6 +787,30 @@ def nontrivial(inp, out):
     return None
 
 
+def _backtracks(inp):
+    """does the search for the modification mappings of some residue have to give up an option it tried (per residue, ignoring
+    that neighbouring modified residues are treated together)?"""
+    opts = sorted([tuple(m['names']) for m in inp['modmaps']], key=len, reverse=True)
+    hit = [False]
+
+    def cov(todo, options):
+        if not todo:
+            return []
+        for i, o in enumerate(options):
+            if all(x in todo for x in o):
+                left = [x for x in todo if x not in o]
+                f = cov(left, options[i:])
+                if f is not None:
+                    return [o] + f
+                hit[0] = True
+        return None
+    for names in {tuple(v) for _, v in inp['labels'] if len(v) > 1}:
+        if cov(list(names), opts) is not None and hit[0]:
+            return True
+        hit[0] = False
+    return False
+
+
 def describe(inp, out):
     if inp['kind'] == 'real':
         return {'kind': 'real', 'real_to': inp['to'], 'real_termini': '%s/%s' % (inp.get('nter'), inp.get('cter')), 'real_mod_placements': len(out.get('mfound', [])), 'real_n_res': len(inp['seq']), 'real_keys': inp['keys'], 'real_unmapped': out['unmapped'],
@@ -751,7 +818,8 @@ def describe(inp, out):
     if inp['kind'] == 'mods':
         return {'kind': 'mods', 'n_mod_placements': min(len(out['mfound']), 4), 'mods_error': out['result'] is None,
                 'mods_skipped_overlap': bool(out['mfound']) and _blocks_overlap(out),
-                'mods_no_cover': min(out['no_cover'], 2), 'n_modmaps': len(inp['modmaps'])}
+                'mods_no_cover': min(out['no_cover'], 2), 'n_modmaps': len(inp['modmaps']),
+                'mods_multi_name': any(len(m['names']) > 1 for m in inp['modmaps']), 'mods_cover_backtracks': _backtracks(inp)}
     if inp['kind'] == 'map':
         return {'kind': 'map', 'n_matches': min(len(out['matches']), 4)}
     keys = [a['key'] for a in inp['mol']['atoms']]
